@@ -2,7 +2,7 @@
     Only statements live here; each is closed by [exact] of a lemma proved elsewhere. *)
 From Coq Require Import List ZArith Sorted.
 From Coq Require String.
-From V Require Import Gen.Params PktProt.PktNum PktProt.PktNumProofs PktProt.KeyPhase PktProt.KeyPhaseProofs PktProt.KeyDerive PktProt.KeyDeriveProofs PktProt.KeyPhaseRun PktProt.KeyPhaseWindow PktProt.KeyPhaseSys PktProt.KeyPhaseSysProofs PktProt.KeyPhaseExamples PktProt.Sha256 PktProt.InitialKeys PktProt.InitialKeysProofs PktProt.Aes PktProt.InitialProtect PktProt.InitialProtectExamples PktProt.Retry PktProt.RetryProofs Lib.Hex PktProt.Protect PktProt.ProtectProofs PktProt.ProtectExamples.
+From V Require Import Gen.Params PktProt.PktNum PktProt.PktNumProofs PktProt.KeyPhase PktProt.KeyPhaseProofs PktProt.KeyDerive PktProt.KeyDeriveProofs PktProt.KeyPhaseRun PktProt.KeyPhaseWindow PktProt.KeyPhaseSys PktProt.KeyPhaseSysProofs PktProt.KeyPhaseExamples PktProt.Sha256 PktProt.InitialKeys PktProt.InitialKeysProofs PktProt.Aes PktProt.InitialProtect PktProt.InitialProtectExamples PktProt.Retry PktProt.RetryProofs PktProt.AesProofs Lib.Hex PktProt.Protect PktProt.ProtectProofs PktProt.ProtectExamples.
 Import ListNotations.
 Open Scope Z_scope.
 
@@ -319,3 +319,21 @@ Example C05_retry_rfc :
   retry_tag true rfc_dcid (hx "cf6b3343cf0008f067a5502a4262b5746f6b656e") = hx "c8646ce8bfe33952d955543665dcc7b6".
 Proof. exact (conj retry_nonce_rfc retry_rfc_A4). Qed.
 Print Assumptions C05_retry_rfc.
+
+(** (a) for Initial packets with NO cryptographic hypothesis: the Gallina AES-128-GCM is proved
+    to open what it seals (gcm_open_seal), the derived keys have the right sizes, hence for
+    every version, side, connection ID, long-header first byte / prefix, packet number length
+    1..4, packet number inside the receiver's window and non-empty payload with
+    pnLen + |payload| >= 4, the concrete protection (HKDF-derived keys, AES-128-GCM,
+    AES-ECB header protection) round-trips.  (Instances: the RFC packets above.) *)
+Theorem C05_initial_protect_roundtrip :
+  forall (v2 client : bool) (dcid : list Z) first mid pn pnLen payload largest,
+    (1 <= pnLen <= 4)%nat -> wf_first true first pnLen 0 ->
+    0 <= pn < 2 ^ 62 -> -1 <= largest ->
+    largest + 1 - 2 ^ (Z.of_nat pnLen * 8) / 2 < pn <= largest + 1 + 2 ^ (Z.of_nat pnLen * 8) / 2 ->
+    payload <> [] -> (4 <= pnLen + List.length payload)%nat ->
+    initial_unprotect v2 client dcid (1 + List.length mid) largest
+      (initial_protect v2 client dcid (mk_header first mid pnLen pn) payload pn pnLen)
+    = UOk first pn (Z.of_nat pnLen) 0 payload.
+Proof. exact initial_roundtrip. Qed.
+Print Assumptions C05_initial_protect_roundtrip.
